@@ -3120,7 +3120,11 @@ class NetCDFRead(IORead):
                 )
 
                 self._add_message(
-                    field_ncvar, ncvar, message=message, attribute=attribute
+                    field_ncvar,
+                    ncvar,
+                    message=message,
+                    attribute=attribute,
+                    variable=coord_ncvar,
                 )
                 continue
 
